@@ -529,7 +529,7 @@ def oracle_c02(sc, res):
             open_can[1] = r
             can_windows.append(open_can)
             open_can = None
-        elif open_can is not None and k in ("act", "trans", "ucall", "recv"):
+        elif open_can is not None and k in ("act", "trans", "ucall", "recv") and not (k == "ucall" and r[4] == "fn"):
             open_can[5].append(r)
         elif k == "obs" and r[5] == root:
             last_obs = r[6]
@@ -591,7 +591,9 @@ def oracle_c02(sc, res):
                                   f"event {etype} in {sorted(cfg_at)} ctx={ctx_at}: nominated {nom_ids}, fired {fired_ids}; {t.tid} missing though its source {t.source.id} was not exited"))
             return vios
         if not noms and not always_enabled and etype != "":
-            acts = [r for r in recs if r[K] in ("act", "trans", "ucall") and not (r[K] == "trans" and r[7] == "___xstate_statemachine_init___")]
+            # (the evaluation of a guard's computed params is part of evaluating the guard, not an effect)
+            acts = [r for r in recs if r[K] in ("act", "trans", "ucall") and not (r[K] == "trans" and r[7] == "___xstate_statemachine_init___")
+                    and not (r[K] == "ucall" and r[4] == "fn")]
             if acts:
                 vios.append(Violation("C02", "unhandled-event-not-noop", sig_base,
                                       f"event {etype} has no nominee in {sorted(cfg_at)} but {[(a[K], a[5]) for a in acts[:4]]} ran"))
